@@ -203,8 +203,8 @@ R.contract(
 EVAL_ENS = {
     "yields_all_in_order": "len(result) == len(individuals) and forall(0, len(individuals), lambda k: same(result[k], individuals[k]))",
     "all_evaluated": "forall(0, len(individuals), lambda k: problem in individuals[k].fitness_store)",
-    "existing_fitness_kept": "dicts_monotone(individuals[0].fitness_store) or len(individuals) == 0",
-    "phenotype_cache_stable": "len(individuals) == 0 or field_sticky(individuals[0], 'phenotype')",
+    "existing_fitness_kept": "fitness_stores_monotone()",
+    "phenotype_cache_stable": "phenotypes_sticky()",
     "stores_in_place": "forall(0, len(individuals), lambda k: same(individuals[k].fitness_store, old(individuals[k].fitness_store)))",
     "counter_equals_invocations": "self.count - old(self.count) == problem.ff.fn.ncalls - old(problem.ff.fn.ncalls)",
     "counter_bounds": "self.count >= old(self.count) and self.count <= old(self.count) + len(individuals)",
@@ -266,7 +266,7 @@ R.contract(
                 "one_result_each": "len(__res) == _k",
                 "invocations": "problem.ff.fn.ncalls == old(problem.ff.fn.ncalls) + _k",
                 "results_fresh": "forall(0, _k, lambda j: fresh(__res[j]) and len(__res[j].fitness_components) >= 1)",
-                "sticky": "field_sticky(pending[0], 'phenotype')",
+                "sticky": "phenotypes_sticky()",
                 "pending_old": "forall(0, len(pending), lambda b: not fresh(pending[b]))",
             },
             modifies=["__res[]", "problem.ff.fn.ncalls", "all:field:phenotype"],
@@ -276,7 +276,7 @@ R.contract(
             invariants={
                 "stored_prefix": "forall(0, _k, lambda b: problem in pending[b].fitness_store)",
                 "tail_unevaluated": "forall(_k, len(pending), lambda b: not (problem in pending[b].fitness_store))",
-                "kept": "dicts_monotone(pending[0].fitness_store)",
+                "kept": "fitness_stores_monotone()",
                 "count": "self.count == old(self.count) + _k",
                 "pending_old": "forall(0, len(pending), lambda b: not fresh(pending[b]))",
             },
@@ -301,8 +301,8 @@ for key, file in (("SequentialEvaluator", ESEQ),):
                 invariants={
                     "yielded_prefix": "len(OUT) == _k and forall(0, _k, lambda k: same(OUT[k], individuals[k]))",
                     "prefix_evaluated": "forall(0, _k, lambda k: problem in individuals[k].fitness_store)",
-                    "kept": "dicts_monotone(individuals[0].fitness_store) or len(individuals) == 0",
-                    "sticky": "len(individuals) == 0 or field_sticky(individuals[0], 'phenotype')",
+                    "kept": "fitness_stores_monotone()",
+                    "sticky": "phenotypes_sticky()",
                     "counter": "self.count - old(self.count) == problem.ff.fn.ncalls - old(problem.ff.fn.ncalls)",
                     "bounds": "self.count >= old(self.count) and self.count <= old(self.count) + _k",
                     "idle": "implies(forall(0, _k, lambda k: old(problem in individuals[k].fitness_store)), self.count == old(self.count))",
